@@ -1232,7 +1232,7 @@ func c13Features(c *c13Case, data []byte) {
 	if o.Fallbacks > 0 {
 		f["fallback-data"] = true
 	}
-	if o.Polls > 0 && len(c.Queue) > 0 {
+	if (o.Polls > 0 || o.Fallbacks > 0) && len(c.Queue) > 0 {
 		f["queue-drained"] = true
 	}
 	if len(o.Posted) > 0 {
